@@ -36,6 +36,19 @@ CLAIMED['C20'] = dict(
          "injection (signal/error at the k-th rename) in a scratch directory. Outside: fsync/durability, other processes.",
     design='§5 C20')
 
+CLAIMED['C16'] = dict(
+    category='model_checking',
+    text="Panic-freedom of the width-arithmetic kernels under the property's 'usable page' precondition: every overflow / division / str-slice / unwrap "
+         "assert that rustc put into the MIR of all functions of src/shape.rs (Indent, Shape and their Add/Sub impls) and of the kernels process_comment, "
+         "push_vertical_spaces, FormatLines::{new_line,char}, last_line_used_width, FormattedSnippet::unwrap_code_block becomes an obligation decided by "
+         "the solver for all max_width 20..200 (thorough 10000), tab_spaces 1..8, arbitrary nesting depth. Sites inside large functions are reached by "
+         "under-constrained symbolic execution from the function entry (arbitrary state), which over-approximates and is therefore sound for panic-freedom. "
+         "Parser panics, catch_unwind containment and stack depth are outside this technique.",
+    note="Trusted: MIR printer, mirsym (lazy under-constrained objects; callees outside shape.rs/config/formatting.rs are uninterpreted and havoc their &mut "
+         "arguments), all usize quantities assumed < 2^32. Indent - Indent and Indent - usize are caller-contract dependent and listed, not decided. "
+         "A solver counterexample is reported only if the real binary panics at the same source line on a generated nested input.",
+    design='§5 C16')
+
 NA = {
     'C01': "token-sequence equivalence over all programs requires symbolic execution of rustc_parse and ~30 kLoC of AST rewriters; no encodable kernel carries it",
     'C02': "fixed-point of the full formatting pipeline (parser + all rewriters on both sides); not encodable, and idempotence of kernels does not imply it",
